@@ -7,6 +7,7 @@ CONSTANTS
   FaultDepth = 1
   MaxFrames = 2
   MaxCompound = 3
+  MaxHist = 3
   AllPTs = FALSE
 INVARIANTS TypeOK AutomatonIsGrammar CompoundMarshal CompoundBack CnameDefined
 CHECK_DEADLOCK FALSE
